@@ -14,9 +14,9 @@ pairing (a dependency).  Their exponent-form counterparts below are ring identit
 scalar model; the laws themselves are observed on the real wrappers by the correspondence
 stream (named oracles), with the scalars `a+b`, `a·b`, … taken from this model.
 
-Findings on the pinned tree that the model mirrors (witness theorem + partial theorem):
-* `mod_neg(0)` returns `r` itself (unreduced)  — `scalar_neg_finding_zero`;
-* `inverse()` of `0` never returns            — `scalar_inv_finding_zero`.
+History: on the pinned tree `mod_neg(0)` returned the unreduced `r`, `inverse(0)` did not
+terminate, `from_string` panicked on malformed input and misbehaved on 72+ digits; these were
+fixed in `/repo` and the model and the theorems below are the full-strength statements.
 -/
 namespace CL.C19
 open CL CL.Sc CL.FourSq
@@ -51,20 +51,13 @@ theorem scalar_ring_hom_mul (a b : ℕ) :
 
 example : Sc.mul (Sc.r - 1) (Sc.r - 1) = 1 := by decide
 
-/-- `mod_neg` is negation in `ZMod r` for every input … -/
-theorem scalar_ring_hom_neg (a : ℕ) : toZMod (Sc.neg a) = - toZMod a := toZMod_neg a
+/-- `mod_neg` is negation in `ZMod r` and returns the canonical representative, for every
+input (in particular `mod_neg(0) = 0`) -/
+theorem scalar_ring_hom_neg (a : ℕ) :
+    toZMod (Sc.neg a) = - toZMod a ∧ Sc.neg a < Sc.r ∧ (a % Sc.r = 0 → Sc.neg a = 0) :=
+  ⟨toZMod_neg a, neg_lt a, neg_of_mod_zero a⟩
 
-/-- … and returns the canonical representative **except on multiples of `r`**
-(full statement: `neg a < r` for all `a`; excluded: `a ≡ 0`, see the finding below) -/
-theorem scalar_neg_reduced_partial (a : ℕ) (h : a % Sc.r ≠ 0) : Sc.neg a < Sc.r := neg_lt a h
-
-example : (7 : ℕ) % Sc.r ≠ 0 ∧ Sc.neg 7 = Sc.r - 7 := by decide
-
-/-- **finding** (`C19/mod_neg_zero_unreduced`): `mod_neg(0)` is `r`, not `0`: the result is not
-reduced (`rsub(ORDER)` without a final `rmod`) -/
-theorem scalar_neg_finding_zero : ¬ (Sc.neg 0 < Sc.r) ∧ Sc.neg 0 = Sc.r := by
-  have h : Sc.neg 0 = Sc.r := neg_of_mod_zero 0 (by decide)
-  exact ⟨by rw [h]; exact lt_irrefl _, h⟩
+example : Sc.neg 7 = Sc.r - 7 ∧ Sc.neg 0 = 0 ∧ Sc.neg Sc.r = 0 := by decide
 
 /-- `pow_mod` is exponentiation: as a number (`a^e mod r`) and in `ZMod r` -/
 theorem scalar_ring_hom_pow (a e : ℕ) :
@@ -74,21 +67,25 @@ theorem scalar_ring_hom_pow (a e : ℕ) :
 example : Sc.pow 3 4 = 81 := by decide +kernel
 example : Sc.pow 0 0 = 1 := by decide +kernel
 
-/-- `inverse` of a non-zero scalar is its inverse: `a · inverse(a) = 1` in `ZMod r` and as
-integers modulo `r` (full statement: for every `a`, with `inverse(0)` an error or `0`;
-excluded: `a ≡ 0`, see the finding below) -/
-theorem scalar_inv_partial (a : ℕ) (h : a % Sc.r ≠ 0) :
-    ∃ v, Sc.inv a = .ok v ∧ v < Sc.r ∧ toZMod a * toZMod v = 1 ∧ a * v % Sc.r = 1 :=
-  ⟨Sc.pow a (Sc.r - 2), inv_of_ne a h, pow_lt a _, toZMod_mul_inv a h, mul_inv_mod a h⟩
+/-- `inverse` is total: it refuses exactly the multiples of `r` (`Err`), and for every other
+`a` returns the inverse: `a · inverse(a) = 1` in `ZMod r` and as integers modulo `r` (Fermat,
+with the primality of `r` proved above) -/
+theorem scalar_inv_total (a : ℕ) :
+    (a % Sc.r = 0 → Sc.inv a = .err) ∧
+    (a % Sc.r ≠ 0 → ∃ v, Sc.inv a = .ok v ∧ v < Sc.r ∧ toZMod a * toZMod v = 1 ∧ a * v % Sc.r = 1) :=
+  ⟨inv_of_mod_zero a,
+   fun h => ⟨Sc.pow a (Sc.r - 2), inv_of_ne a h, pow_lt a _, toZMod_mul_inv a h, mul_inv_mod a h⟩⟩
 
-example : (2 : ℕ) % Sc.r ≠ 0 := by decide
+/-- `inverse(a)` is `Err` **iff** `a ≡ 0 (mod r)` -/
+theorem scalar_inv_err_iff (a : ℕ) : Sc.inv a = .err ↔ a % Sc.r = 0 := by
+  constructor
+  · intro h
+    by_contra hne
+    rw [inv_of_ne a hne] at h
+    cases h
+  · exact inv_of_mod_zero a
 
-/-- **finding** (`C19/inverse_zero_hangs`): `inverse()` of a multiple of `r` (`0`, or the
-unreduced `r` that `mod_neg(0)` returns) does not terminate -/
-theorem scalar_inv_finding_zero :
-    Sc.inv 0 = .hang ∧ Sc.inv (Sc.neg 0) = .hang ∧ ∀ a, a % Sc.r = 0 → Sc.inv a = .hang :=
-  ⟨inv_of_mod_zero 0 (by decide), inv_of_mod_zero _ (by rw [scalar_neg_finding_zero.2]; decide),
-   inv_of_mod_zero⟩
+example : Sc.inv 0 = .err ∧ (2 : ℕ) % Sc.r ≠ 0 := by decide
 
 /-- `new_u32` -/
 theorem scalar_new_u32 (v : UInt32) : Sc.newU32 v = v.toNat ∧ Sc.newU32 v < Sc.r := by
@@ -123,24 +120,21 @@ theorem to_bytes_from_bytes (a : ℕ) :
     (a < Sc.r → Sc.fromBytes (Sc.toBytes a) = .ok a) :=
   ⟨length_toBytes a, beNat_toBytes a, fromBytes_toBytes a⟩
 
-/-- `from_string` (amcl `BIG::from_hex`, then reduction): a non-empty string of at most 71 hex
-digits with value `v` gives `v mod r`; the empty string and any non-hex character panic
-(the panic is C20's subject; it is mirrored, not endorsed). Strings of 72 or more digits are
-outside the modelled domain unless their 288-bit truncation is below `r·2^33`
-(`Sc.fromString`, outcome `depDefined`). -/
+/-- `from_string`: a non-empty string of at most 71 hex digits with value `v` gives `v mod r`
+(and `v < 2^284`, inside the 288 usable bits of the amcl `BIG`); the empty string, any
+non-hex character and more than 71 digits are refused with `Err` — no panic, no other outcome -/
 theorem from_string_spec (s : String) :
     (∀ v, s.toList ≠ [] → Sc.hexVal s.toList (some 0) = some v → s.toList.length ≤ 71 →
-        Sc.fromString s = .ok (v % Sc.r)) ∧
-    (s.toList = [] → Sc.fromString s = .panic) ∧
-    (Sc.hexVal s.toList (some 0) = none → Sc.fromString s = .panic) :=
-  ⟨fun v hne hv hlen => fromString_ok s v hne hv hlen, fromString_empty s, fromString_nonhex s⟩
+        Sc.fromString s = .ok (v % Sc.r) ∧ v < 2 ^ 284) ∧
+    (s.toList = [] → Sc.fromString s = .err) ∧
+    (Sc.hexVal s.toList (some 0) = none → Sc.fromString s = .err) ∧
+    (71 < s.toList.length → Sc.fromString s = .err) :=
+  ⟨fun v hne hv hlen => ⟨fromString_ok s v hne hv hlen, fromString_value_lt s v hv hlen⟩,
+   fromString_empty s, fromString_nonhex s, fromString_long s⟩
 
-set_option exponentiation.threshold 300 in
 example : Sc.fromString "1f" = .ok 31 := by decide
-set_option exponentiation.threshold 300 in
-example : Sc.fromString "" = .panic := by decide
-set_option exponentiation.threshold 300 in
-example : Sc.fromString "+5" = .panic := by decide
+example : Sc.fromString "" = .err := by decide
+example : Sc.fromString "+5" = .err := by decide
 
 /-- `bignum_to_group_element_reduce(num)` is `num mod r` (non-negative remainder), for every
 integer `num` and both conventions of `BigNumber::to_bytes` for zero -/
